@@ -285,6 +285,9 @@ func parent(p *props.Prop, tier string) int {
 	if p.Race != nil {
 		p.Race(&props.Ctx{R: total, Workers: runtime.NumCPU()})
 	}
+	if p.Post != nil {
+		p.Post(&props.Ctx{R: total, Workers: runtime.NumCPU()})
+	}
 
 	if len(total.Infra) > 0 {
 		infra = true
